@@ -776,7 +776,7 @@ var gcDone = fmt.Errorf("verif: gc loop budget exhausted")
 func (d *Driver) GCPass(adv time.Duration) {
 	vtime.Advance(adv)
 	n := 0
-	vtime.AfterFn = func(time.Duration) <-chan time.Time {
+	vtime.SetAfterFn(func(time.Duration) <-chan time.Time {
 		n++
 		if n > 1 {
 			panic(gcDone)
@@ -784,9 +784,9 @@ func (d *Driver) GCPass(adv time.Duration) {
 		ch := make(chan time.Time, 1)
 		ch <- time.Time{}
 		return ch
-	}
+	})
 	defer func() {
-		vtime.AfterFn = nil
+		vtime.SetAfterFn(nil)
 		if r := recover(); r != nil && r != gcDone {
 			panic(r)
 		}
